@@ -135,13 +135,14 @@ where go : List Ty → Nat
   | [] => 0
   | c :: cs => max (depthTy c) (go cs)
 
-/-- instantiate the radicals of a declared type; a radical of the callee without a binding is
-marked with the callee's name (it is not one of the caller's radicals) -/
+/-- instantiate the radicals of a declared type; a radical of the callee the actual arguments say
+nothing about (it only met `∅`-like arguments of the any-type) is the any-type `R0` in the principal
+typification -/
 def instantiate (fn : String) (σ : List (String × Ty)) : Nat → Ty → Ty
   | 0, t => t
   | n+1, t =>
     match t with
-    | .base a => if isRadical a then (match lookup σ a with | some s => s | none => .base (a ++ fn)) else t
+    | .base a => if isRadical a then (match lookup σ a with | some s => s | none => .base "R0") else t
     | .coll b => .coll (instantiate fn σ n b)
     | .tuple cs => .tuple (cs.map (instantiate fn σ n))
 
